@@ -135,29 +135,29 @@ theorem inv_init (ops : Ops Tree Plan Backup H) (t : Tree) (clock : Nat) :
 
 -- closed forms of the successful steps -------------------------------------------------------------------
 
-theorem applyWithId_ok (ops : Ops Tree Plan Backup H) (w : World Tree Plan Backup H) (id : EId H) (p : Plan)
+theorem applyWithId_ok (cfg : Cfg) (ops : Ops Tree Plan Backup H) (w : World Tree Plan Backup H) (id : EId H) (p : Plan)
     (t' : Tree) (b : Backup) (ha : ops.apply w.tree p = .ok t' b) (hf : hasId w.entries id = false)
     (hb : lookup w.backups id = none) :
-    applyWithId .current ops w id p =
+    applyWithId cfg ops w id p =
       ({ clock := w.clock, tree := t', entries := w.entries ++ [{ id := id, revertOf := none }],
          plans := put w.plans id p, backups := put w.backups id b }, .ok) := by
   unfold applyWithId
-  simp [ha, addEntry, hf, hb, Cfg.current]
+  simp [ha, addEntry, hf, hb]
 
-theorem applyWithId_rejected (ops : Ops Tree Plan Backup H) (w : World Tree Plan Backup H) (id : EId H) (p : Plan)
-    (ha : ops.apply w.tree p = .rejected) : applyWithId .current ops w id p = (w, .rejected) := by
+theorem applyWithId_rejected (cfg : Cfg) (ops : Ops Tree Plan Backup H) (w : World Tree Plan Backup H) (id : EId H) (p : Plan)
+    (ha : ops.apply w.tree p = .rejected) : applyWithId cfg ops w id p = (w, .rejected) := by
   unfold applyWithId
-  simp [ha]
+  by_cases hc : (cfg.earlyDupCheck && hasId w.entries id) = true <;> simp [ha, hc]
 
 /-- c3d511b: an id that is already in the history is refused before anything is touched -/
-theorem applyWithId_dup (ops : Ops Tree Plan Backup H) (w : World Tree Plan Backup H) (id : EId H) (p : Plan)
-    (hd : hasId w.entries id = true) : applyWithId .current ops w id p = (w, .rejected) := by
+theorem applyWithId_dup (cfg : Cfg) (hE : cfg.earlyDupCheck = true) (ops : Ops Tree Plan Backup H) (w : World Tree Plan Backup H) (id : EId H) (p : Plan)
+    (hd : hasId w.entries id = true) : applyWithId cfg ops w id p = (w, .rejected) := by
   unfold applyWithId
-  simp [hd, Cfg.current]
+  simp [hd, hE]
 
-theorem stepUndo_ineligible (ops : Ops Tree Plan Backup H) (w : World Tree Plan Backup H) (t : Target H) (i : EId H)
+theorem stepUndo_ineligible (cfg : Cfg) (ops : Ops Tree Plan Backup H) (w : World Tree Plan Backup H) (t : Target H) (i : EId H)
     (hr : resolve w.entries true t = some i) (he : undoEligible w.entries i = false) :
-    stepUndo ops w t = (w, .rejected) := by
+    stepUndo cfg ops w t = (w, .rejected) := by
   unfold stepUndo
   simp only [hr]
   unfold undoEligible at he
@@ -177,57 +177,58 @@ theorem stepUndo_ineligible (ops : Ops Tree Plan Backup H) (w : World Tree Plan 
         simp [hf, h1'] at he
         exact h2 he
 
-theorem stepUndo_ok (ops : Ops Tree Plan Backup H) (w : World Tree Plan Backup H) (t : Target H) (i : EId H)
+theorem stepUndo_ok (cfg : Cfg) (ops : Ops Tree Plan Backup H) (w : World Tree Plan Backup H) (t : Target H) (i : EId H)
     (e : Entry H) (p : Plan) (b : Backup) (t' : Tree)
     (hr : resolve w.entries true t = some i) (hf : findEntry w.entries i = some e) (h1 : e.revertOf = none)
     (h2 : hasRevertOf w.entries i = false) (hp : lookup w.plans i = some p) (hb : lookup w.backups i = some b)
     (hv : ops.revert w.tree p b = .ok t') (hd : hasId w.entries (.revert i w.clock) = false) :
-    stepUndo ops w t =
+    stepUndo cfg ops w t =
       ({ w with tree := t', entries := w.entries ++ [{ id := .revert i w.clock, revertOf := some i }] }, .ok) := by
   unfold stepUndo
   simp [hr, hf, h1, h2, hp, hb, hv, addEntry, hd]
 
-theorem stepRedo_ineligible (ops : Ops Tree Plan Backup H) (w : World Tree Plan Backup H) (t : Target H) (i : EId H)
+theorem stepRedo_ineligible (cfg : Cfg) (hR : cfg.redoOnce = true) (ops : Ops Tree Plan Backup H) (w : World Tree Plan Backup H) (t : Target H) (i : EId H)
     (hr : resolve w.entries false t = some i) (he : redoEligible w.entries i = false) :
-    stepRedo .current ops w t = (w, .rejected) := by
+    stepRedo cfg ops w t = (w, .rejected) := by
   unfold stepRedo
   simp only [hr]
   unfold redoEligible at he
   by_cases h1 : hasId w.entries i = true
   · by_cases h2 : hasRevertOf w.entries i = true
     · have h3 : hasRedoOf w.entries i = true := by simpa [h1, h2] using he
-      simp [h1, h2, h3, Cfg.current]
+      simp [h1, h2, h3, hR]
     · simp [h1, h2]
   · simp [h1]
 
-theorem stepRedo_eligible (ops : Ops Tree Plan Backup H) (w : World Tree Plan Backup H) (t : Target H) (i : EId H)
+theorem stepRedo_eligible (cfg : Cfg) (ops : Ops Tree Plan Backup H) (w : World Tree Plan Backup H) (t : Target H) (i : EId H)
     (p : Plan) (hr : resolve w.entries false t = some i) (h1 : hasId w.entries i = true)
-    (h2 : hasRevertOf w.entries i = true) (h3 : hasRedoOf w.entries i = false) (hp : lookup w.plans i = some p) :
-    stepRedo .current ops w t = applyWithId .current ops w (.redo i w.clock) p := by
+    (h2 : hasRevertOf w.entries i = true) (h3 : hasRedoOf w.entries i = false) (hp : lookup w.plans i = some p)
+    (hok : (ops.apply w.tree p).isOk = true) :
+    stepRedo cfg ops w t = applyWithId cfg ops w (.redo i w.clock) p := by
   unfold stepRedo
-  simp [hr, h1, h2, h3, hp]
+  simp [hr, h1, h2, h3, hp, hok]
 
 -- preservation ---------------------------------------------------------------------------------------
 
 variable [DecidableEq Tree]
 
-theorem inv_rename (ops : Ops Tree Plan Backup H) (w : World Tree Plan Backup H) (s : Spec Tree H) (se re : Bytes)
+theorem inv_rename (cfg : Cfg) (hE : cfg.earlyDupCheck = true) (ops : Ops Tree Plan Backup H) (w : World Tree Plan Backup H) (s : Spec Tree H) (se re : Bytes)
     (hI : Inv ops w s) (hG : G10 ops w s (.rename se re) = true) :
-    Conforms ops w s (.rename se re) ∧
-      Inv ops (step .current ops w (.rename se re)).1 (specStep ops s w (.rename se re)) := by
-  have hstep : step .current ops w (.rename se re) = stepRename .current ops w se re := rfl
+    Conforms cfg ops w s (.rename se re) ∧
+      Inv ops (step cfg ops w (.rename se re)).1 (specStep cfg ops s w (.rename se re)) := by
+  have hstep : step cfg ops w (.rename se re) = stepRename cfg ops w se re := rfl
   by_cases he : ops.isEmpty (ops.scan w.tree se re) = true
-  · have heq : stepRename .current ops w se re = (w, .noop) := by unfold stepRename; simp [he]
-    have hs : specStep ops s w (.rename se re) = s := by unfold specStep; simp [hstep, heq]
+  · have heq : stepRename cfg ops w se re = (w, .noop) := by unfold stepRename; simp [he]
+    have hs : specStep cfg ops s w (.rename se re) = s := by unfold specStep; simp [hstep, heq]
     rw [hs]
     refine ⟨?_, ?_⟩
     · unfold Conforms; simp [hstep, heq]
     · rw [hstep, heq]; exact hI
   · by_cases hdup : hasId w.entries (.plan (ops.hash (se ++ re) w.clock)) = true
     · -- the id is already there: refused before anything is touched
-      have heq : stepRename .current ops w se re = (w, .rejected) := by
-        unfold stepRename; simp [he, applyWithId_dup ops w _ _ hdup]
-      have hs : specStep ops s w (.rename se re) = s := by unfold specStep; simp [hstep, heq]
+      have heq : stepRename cfg ops w se re = (w, .rejected) := by
+        unfold stepRename; simp [he, applyWithId_dup cfg hE ops w _ _ hdup]
+      have hs : specStep cfg ops s w (.rename se re) = s := by unfold specStep; simp [hstep, heq]
       rw [hs]
       refine ⟨?_, ?_⟩
       · unfold Conforms; simp [hstep, heq]
@@ -239,9 +240,9 @@ theorem inv_rename (ops : Ops Tree Plan Backup H) (w : World Tree Plan Backup H)
       simpa [G10, he, hfresh] using hG
     cases ha : ops.apply w.tree (ops.scan w.tree se re) with
     | rejected =>
-      have heq : stepRename .current ops w se re = (w, .rejected) := by
-        unfold stepRename; simp [he, applyWithId_rejected ops w _ _ ha]
-      have hs : specStep ops s w (.rename se re) = s := by unfold specStep; simp [hstep, heq]
+      have heq : stepRename cfg ops w se re = (w, .rejected) := by
+        unfold stepRename; simp [he, applyWithId_rejected cfg ops w _ _ ha]
+      have hs : specStep cfg ops s w (.rename se re) = s := by unfold specStep; simp [hstep, heq]
       rw [hs]
       refine ⟨?_, ?_⟩
       · unfold Conforms; simp [hstep, heq]
@@ -254,13 +255,13 @@ theorem inv_rename (ops : Ops Tree Plan Backup H) (w : World Tree Plan Backup H)
         | some v =>
           have := hI.backupsIds (.plan (ops.hash (se ++ re) w.clock)) (by simp [hl])
           rw [hG'.1] at this; cases this
-      have heq : stepRename .current ops w se re =
+      have heq : stepRename cfg ops w se re =
           ({ clock := w.clock, tree := t',
              entries := w.entries ++ [{ id := .plan (ops.hash (se ++ re) w.clock), revertOf := none }],
              plans := put w.plans (.plan (ops.hash (se ++ re) w.clock)) (ops.scan w.tree se re),
              backups := put w.backups (.plan (ops.hash (se ++ re) w.clock)) b }, .ok) := by
-        unfold stepRename; simp [he, applyWithId_ok ops w _ _ t' b ha hG'.1 hb]
-      have hs : specStep ops s w (.rename se re) = push s (.plan (ops.hash (se ++ re) w.clock)) w.tree t' := by
+        unfold stepRename; simp [he, applyWithId_ok cfg ops w _ _ t' b ha hG'.1 hb]
+      have hs : specStep cfg ops s w (.rename se re) = push s (.plan (ops.hash (se ++ re) w.clock)) w.tree t' := by
         unfold specStep; simp [hstep, heq]
       rw [hs]
       have hnew : ∀ o ∈ s, o.root ≠ .plan (ops.hash (se ++ re) w.clock) := by
@@ -310,14 +311,14 @@ theorem inv_rename (ops : Ops Tree Plan Backup H) (w : World Tree Plan Backup H)
             exact hasId_append _ _ _ (hI.backupsIds i hi)
         · exact status_rename w.entries s hI.status _ w.tree t' hG'.1 hnew
 
-theorem inv_undo (ops : Ops Tree Plan Backup H) (hRT : RoundTrip ops) (w : World Tree Plan Backup H) (s : Spec Tree H)
+theorem inv_undo (cfg : Cfg) (ops : Ops Tree Plan Backup H) (hRT : RoundTrip ops) (w : World Tree Plan Backup H) (s : Spec Tree H)
     (t : Target H) (hI : Inv ops w s) (hG : G10 ops w s (.undo t) = true) :
-    Conforms ops w s (.undo t) ∧ Inv ops (step .current ops w (.undo t)).1 (specStep ops s w (.undo t)) := by
-  have hstep : step .current ops w (.undo t) = stepUndo ops w t := rfl
-  have rejected : stepUndo ops w t = (w, .rejected) →
-      Conforms ops w s (.undo t) ∧ Inv ops (step .current ops w (.undo t)).1 (specStep ops s w (.undo t)) := by
+    Conforms cfg ops w s (.undo t) ∧ Inv ops (step cfg ops w (.undo t)).1 (specStep cfg ops s w (.undo t)) := by
+  have hstep : step cfg ops w (.undo t) = stepUndo cfg ops w t := rfl
+  have rejected : stepUndo cfg ops w t = (w, .rejected) →
+      Conforms cfg ops w s (.undo t) ∧ Inv ops (step cfg ops w (.undo t)).1 (specStep cfg ops s w (.undo t)) := by
     intro heq
-    have hs : specStep ops s w (.undo t) = s := by unfold specStep; simp [hstep, heq]
+    have hs : specStep cfg ops s w (.undo t) = s := by unfold specStep; simp [hstep, heq]
     rw [hs]
     refine ⟨?_, ?_⟩
     · unfold Conforms; simp [hstep, heq]
@@ -361,8 +362,8 @@ theorem inv_undo (ops : Ops Tree Plan Backup H) (hRT : RoundTrip ops) (w : World
               have hr' : hasRevertOf w.entries i = true := by
                 simp [hasRevertOf]; exact ⟨e', he', this⟩
               rw [hnorev] at hr'; cases hr'
-          have heq := stepUndo_ok ops w t i e p b o'.pre hr hf h1 hnorev hp hb hv hd
-          have hs : specStep ops s w (.undo t) = setApplied s i.root false := by
+          have heq := stepUndo_ok cfg ops w t i e p b o'.pre hr hf h1 hnorev hp hb hv hd
+          have hs : specStep cfg ops s w (.undo t) = setApplied s i.root false := by
             unfold specStep; simp [hstep, heq, hr]
           rw [hs]
           refine ⟨?_, ?_⟩
@@ -394,16 +395,16 @@ theorem inv_undo (ops : Ops Tree Plan Backup H) (hRT : RoundTrip ops) (w : World
             · intro k hk
               exact hasId_append _ _ _ (hI.backupsIds k hk)
             · exact status_undo w.entries s hI.status i w.clock e hemem heid h1 hnorev
-    · exact rejected (stepUndo_ineligible ops w t i hr (by simpa using hel))
+    · exact rejected (stepUndo_ineligible cfg ops w t i hr (by simpa using hel))
 
-theorem inv_redo (ops : Ops Tree Plan Backup H) (w : World Tree Plan Backup H) (s : Spec Tree H)
+theorem inv_redo (cfg : Cfg) (hE : cfg.earlyDupCheck = true) (hR : cfg.redoOnce = true) (ops : Ops Tree Plan Backup H) (w : World Tree Plan Backup H) (s : Spec Tree H)
     (t : Target H) (hI : Inv ops w s) (hG : G10 ops w s (.redo t) = true) :
-    Conforms ops w s (.redo t) ∧ Inv ops (step .current ops w (.redo t)).1 (specStep ops s w (.redo t)) := by
-  have hstep : step .current ops w (.redo t) = stepRedo .current ops w t := rfl
-  have rejected : stepRedo .current ops w t = (w, .rejected) →
-      Conforms ops w s (.redo t) ∧ Inv ops (step .current ops w (.redo t)).1 (specStep ops s w (.redo t)) := by
+    Conforms cfg ops w s (.redo t) ∧ Inv ops (step cfg ops w (.redo t)).1 (specStep cfg ops s w (.redo t)) := by
+  have hstep : step cfg ops w (.redo t) = stepRedo cfg ops w t := rfl
+  have rejected : stepRedo cfg ops w t = (w, .rejected) →
+      Conforms cfg ops w s (.redo t) ∧ Inv ops (step cfg ops w (.redo t)).1 (specStep cfg ops s w (.redo t)) := by
     intro heq
-    have hs : specStep ops s w (.redo t) = s := by unfold specStep; simp [hstep, heq]
+    have hs : specStep cfg ops s w (.redo t) = s := by unfold specStep; simp [hstep, heq]
     rw [hs]
     refine ⟨?_, ?_⟩
     · unfold Conforms; simp [hstep, heq]
@@ -444,8 +445,8 @@ theorem inv_redo (ops : Ops Tree Plan Backup H) (w : World Tree Plan Backup H) (
             (by rw [heid]; exact hfs)
         by_cases hdup : hasId w.entries (.redo i w.clock) = true
         · -- same-second repetition: `redo-<id>-<sec>` is already there, refused before anything is touched
-          exact rejected ((stepRedo_eligible ops w t i p hr hid hrev hnoredo hp).trans
-            (applyWithId_dup ops w _ p hdup))
+          exact rejected ((stepRedo_eligible cfg ops w t i p hr hid hrev hnoredo hp (by rw [ha]; rfl)).trans
+            (applyWithId_dup cfg hE ops w _ p hdup))
         have hfresh : hasId w.entries (.redo i w.clock) = false := by simpa using hdup
         have hbk : lookup w.backups (.redo i w.clock) = none := by
           cases hl : lookup w.backups (.redo i w.clock) with
@@ -453,9 +454,9 @@ theorem inv_redo (ops : Ops Tree Plan Backup H) (w : World Tree Plan Backup H) (
           | some v =>
             have := hI.backupsIds (.redo i w.clock) (by simp [hl])
             rw [hfresh] at this; cases this
-        have heq : stepRedo .current ops w t = _ :=
-          (stepRedo_eligible ops w t i p hr hid hrev hnoredo hp).trans (applyWithId_ok ops w _ p _ b ha hfresh hbk)
-        have hs : specStep ops s w (.redo t) = setApplied s i.root true := by
+        have heq : stepRedo cfg ops w t = _ :=
+          (stepRedo_eligible cfg ops w t i p hr hid hrev hnoredo hp (by rw [ha]; rfl)).trans (applyWithId_ok cfg ops w _ p _ b ha hfresh hbk)
+        have hs : specStep cfg ops s w (.redo t) = setApplied s i.root true := by
           unfold specStep; simp [hstep, heq, hr]
         rw [hs]
         refine ⟨?_, ?_⟩
@@ -499,32 +500,32 @@ theorem inv_redo (ops : Ops Tree Plan Backup H) (w : World Tree Plan Backup H) (
             · rw [lookup_put_other _ _ _ _ hkk] at hk
               exact hasId_append _ _ _ (hI.backupsIds k hk)
           · exact status_redo w.entries s hI.status i w.clock e hemem heid h1 hrev hnoredo hfresh
-    · exact rejected (stepRedo_ineligible ops w t i hr (by simpa using hel))
+    · exact rejected (stepRedo_ineligible cfg hR ops w t i hr (by simpa using hel))
 
 /-- every guarded command conforms and keeps the invariant -/
-theorem inv_step (ops : Ops Tree Plan Backup H) (hRT : RoundTrip ops) (w : World Tree Plan Backup H) (s : Spec Tree H)
+theorem inv_step (cfg : Cfg) (hE : cfg.earlyDupCheck = true) (hR : cfg.redoOnce = true) (ops : Ops Tree Plan Backup H) (hRT : RoundTrip ops) (w : World Tree Plan Backup H) (s : Spec Tree H)
     (c : Cmd H) (hI : Inv ops w s) (hG : G10 ops w s c = true) :
-    Conforms ops w s c ∧ Inv ops (step .current ops w c).1 (specStep ops s w c) := by
+    Conforms cfg ops w s c ∧ Inv ops (step cfg ops w c).1 (specStep cfg ops s w c) := by
   cases c with
-  | rename se re => exact inv_rename ops w s se re hI hG
-  | undo t => exact inv_undo ops hRT w s t hI hG
-  | redo t => exact inv_redo ops w s t hI hG
+  | rename se re => exact inv_rename cfg hE ops w s se re hI hG
+  | undo t => exact inv_undo cfg ops hRT w s t hI hG
+  | redo t => exact inv_redo cfg hE hR ops w s t hI hG
   | tick =>
     refine ⟨by unfold Conforms; simp [step], ?_⟩
-    have hs : specStep ops s w .tick = s := by unfold specStep; simp [step]
+    have hs : specStep cfg ops s w .tick = s := by unfold specStep; simp [step]
     rw [hs]
     exact { stored := hI.stored, roots := hI.roots, revForm := hI.revForm, revOnly := hI.revOnly,
             backupsIds := hI.backupsIds, status := hI.status }
 
-theorem guarded_conform (ops : Ops Tree Plan Backup H) (hRT : RoundTrip ops) (cs : List (Cmd H)) :
-    ∀ (w : World Tree Plan Backup H) (s : Spec Tree H), Inv ops w s → Guarded ops w s cs = true → AllConform ops w s cs := by
+theorem guarded_conform (cfg : Cfg) (hE : cfg.earlyDupCheck = true) (hR : cfg.redoOnce = true) (ops : Ops Tree Plan Backup H) (hRT : RoundTrip ops) (cs : List (Cmd H)) :
+    ∀ (w : World Tree Plan Backup H) (s : Spec Tree H), Inv ops w s → Guarded cfg ops w s cs = true → AllConform cfg ops w s cs := by
   induction cs with
   | nil => intro w s _ _; trivial
   | cons c cs ih =>
     intro w s hI hG
     unfold Guarded at hG
     simp only [Bool.and_eq_true] at hG
-    obtain ⟨h1, h2⟩ := inv_step ops hRT w s c hI hG.1
+    obtain ⟨h1, h2⟩ := inv_step cfg hE hR ops hRT w s c hI hG.1
     exact ⟨h1, ih _ _ h2 hG.2⟩
 
 end
